@@ -332,3 +332,9 @@ V("call-graph-not-recorded", "C01", "pyteal/compiler/compiler.py", "    if curre
 V("twin-compile-subroutine-rename", "C01", "pyteal/compiler/compiler.py", "    newSubroutines = referencedSubroutines - subroutine_start_blocks.keys()\n    for subroutine in sorted(newSubroutines, key=lambda subroutine: subroutine.id):", "    pending = referencedSubroutines - subroutine_start_blocks.keys()\n    for subroutine in sorted(pending, key=lambda subroutine: subroutine.id):", None, "quiet")
 VARIANTS.append({"name": "twin-named-ints-from-sdk", "prop": "C08", "edits": [("pyteal/compiler/constants.py", "from algosdk import encoding\n", "from algosdk import encoding\nfrom algosdk.transaction import OnComplete as SdkOnComplete\n"), ("pyteal/compiler/constants.py", "    \"CloseOut\": 2,", "    \"CloseOut\": int(SdkOnComplete.CloseOutOC),")], "rule": None, "expect": "quiet"})
 VARIANTS.append({"name": "named-ints-from-sdk-wrong-member", "prop": "C12", "edits": [("pyteal/compiler/constants.py", "from algosdk import encoding\n", "from algosdk import encoding\nfrom algosdk.transaction import OnComplete as SdkOnComplete\n"), ("pyteal/compiler/constants.py", "    \"CloseOut\": 2,", "    \"CloseOut\": int(SdkOnComplete.ClearStateOC),")], "rule": "R12.2", "expect": "fire"})
+V("subroutine-branch-labels-not-prefixed", "C04", "pyteal/compiler/flatten.py", "                stmt.getLabelRef().addPrefix(labelPrefix)", "                pass", "R04.")
+V("subroutine-labels-unsorted-order", "C02", "pyteal/compiler/subroutines.py", "    subroutineOrder = sorted(allButMainRoutine, key=lambda subroutine: subroutine.id)", "    subroutineOrder = list(allButMainRoutine)", None)
+V("subroutine-label-without-index", "C04", "pyteal/compiler/subroutines.py", "        subroutineToLabel[subroutine] = \"{}_{}\".format(safer_name, index)", "        subroutineToLabel[subroutine] = \"{}\".format(safer_name)", "R04.")
+V("subroutine-label-after-body", "C04", "pyteal/compiler/flatten.py", "        combinedOps.append(TealLabel(dexpr, LabelReference(label), comment))  # T2PT1\n        combinedOps += subroutineOps", "        combinedOps += subroutineOps\n        combinedOps.append(TealLabel(dexpr, LabelReference(label), comment))  # T2PT1", "R04.9")
+V("subroutine-no-implicit-retsub", "C02", "pyteal/compiler/compiler.py", "    if not ast.has_return():", "    if not ast.has_return() and currentSubroutine is None:", "R04.9")
+V("twin-flatten-subroutines-local", "C04", "pyteal/compiler/flatten.py", "        comment = subroutine.name()\n        labelPrefix = label + \"_\"", "        labelPrefix = label + \"_\"\n        comment = subroutine.name()", None, "quiet")
